@@ -20,14 +20,15 @@ func NewDefaultConfig() Config {
 // Resolver contains the resolver data
 // Deprecated: Deprecated in favor of using Resolve function directly
 type Resolver struct {
-	db     shared.DBNodeMap
-	config Config
+	db      shared.DBNodeMap
+	config  Config
+	heights map[string]int
 }
 
 // NewResolver creates new resolver
 // Deprecated: Deprecated in favor of using Resolve function directly
 func NewResolver(db shared.DBNodeMap, c Config) Resolver {
-	return Resolver{db, c}
+	return Resolver{db, c, make(map[string]int, len(db))}
 }
 
 // Resolve resolves the current database
@@ -35,58 +36,43 @@ func NewResolver(db shared.DBNodeMap, c Config) Resolver {
 func (r Resolver) Resolve() error {
 	var err error
 	for name := range r.db {
-		if err = r.resolveNode(name, 0); err != nil {
+		if _, err = resolveNode(r.config.MaxDepth, r.db, r.heights, name, 0); err != nil {
 			return err
 		}
 	}
 	return nil
 }
 
-func (r Resolver) resolveNode(name string, level int) error {
-	if level >= r.config.MaxDepth {
-		return fmt.Errorf("maximum resolution depth reached")
-	}
-
-	node, exists := r.db[name]
-	if !exists {
-		return nil
-	}
-
-	nel := shared.NewElements()
-
-	for _, e := range node.Elements {
-		if err := r.resolveNode(e.Name, level+1); err != nil {
-			return err
-		}
-		foundNode, exists := r.db[e.Name]
-		if exists {
-			nel.SumMerge(foundNode.Elements, e.Value)
-		} else {
-			var tm shared.Elements
-			tm.Add(e.Name, e.Value)
-			nel.SumMerge(tm, 1)
-		}
-	}
-	nel.Sort()
-	r.db[name].Elements = nel
-	return nil
-}
-
-func resolveNode(maxDepth int, db shared.DBNodeMap, name string, level int) error {
+// resolveNode resolves the node in place and returns its height: the number of ingredient
+// references on the longest chain below it. Resolved nodes are recorded in heights, so that
+// meeting one again costs nothing and - resolution being in place - the depth limit is still
+// applied to the chain the node had before it was flattened, whatever the visiting order.
+func resolveNode(maxDepth int, db shared.DBNodeMap, heights map[string]int, name string, level int) (int, error) {
 	if level >= maxDepth {
-		return fmt.Errorf("maximum resolution depth reached")
+		return 0, fmt.Errorf("maximum resolution depth reached")
 	}
 
 	node, exists := db[name]
 	if !exists {
-		return nil
+		return 0, nil
+	}
+	if height, resolved := heights[name]; resolved {
+		if level+height >= maxDepth {
+			return 0, fmt.Errorf("maximum resolution depth reached")
+		}
+		return height, nil
 	}
 
 	nel := shared.NewElements()
+	height := 0
 
 	for _, e := range node.Elements {
-		if err := resolveNode(maxDepth, db, e.Name, level+1); err != nil {
-			return err
+		h, err := resolveNode(maxDepth, db, heights, e.Name, level+1)
+		if err != nil {
+			return 0, err
+		}
+		if h+1 > height {
+			height = h + 1
 		}
 		if foundNode, exists := db[e.Name]; exists {
 			nel.SumMerge(foundNode.Elements, e.Value)
@@ -98,12 +84,14 @@ func resolveNode(maxDepth int, db shared.DBNodeMap, name string, level int) erro
 	}
 	nel.Sort()
 	db[name].Elements = nel
-	return nil
+	heights[name] = height
+	return height, nil
 }
 
 func Resolve(c Config, db shared.DBNodeMap) (shared.DBNodeMap, error) {
+	heights := make(map[string]int, len(db))
 	for name := range db {
-		if err := resolveNode(c.MaxDepth, db, name, 0); err != nil {
+		if _, err := resolveNode(c.MaxDepth, db, heights, name, 0); err != nil {
 			return db, err
 		}
 	}
